@@ -1064,6 +1064,7 @@ def replay(ctx: Ctx, payload: dict) -> SuiteResult:
 
 
 if __name__ == "__main__":
+    import gentie
     setup_repo_path()
     try:
         code = run_check(
@@ -1076,7 +1077,7 @@ if __name__ == "__main__":
                 "Pamiq.Buffer.ctor_total", "Pamiq.Buffer.survival_prob_clamped",
                 "Pamiq.Buffer.get_is_copy", "Pamiq.Buffer.len_eq", "Pamiq.Buffer.save_load",
                 "Pamiq.Buffer.load_into_smaller"],
-            suites=[suite_exhaustive, suite_random, suite_malformed], search=search, replay=replay,
+            suites=[gentie.suite_for("C11"), suite_exhaustive, suite_random, suite_malformed], search=search, replay=replay,
             assumptions=[
                 "IEEE-754 rounding is not modelled: probabilities, draws and survival lengths are "
                 "chosen so that every float operation of the buffer code is exact (checked with "
